@@ -157,6 +157,9 @@ class BlockLinearOperator(LinearOperator):
         # This preserves the block structure
         from linear_operator.operators.constant_mul_linear_operator import ConstantMulLinearOperator
 
+        # A batch of constants has to broadcast against the (additional) block dimension of the base
+        if other.dim():
+            other = other.unsqueeze(-1)
         return self.__class__(ConstantMulLinearOperator(self.base_linear_op, other))
 
     def _transpose_nonbatch(self: Float[LinearOperator, "*batch M N"]) -> Float[LinearOperator, "*batch N M"]:
